@@ -443,7 +443,8 @@ theorem navigateType_wf (t : Ty) (k : Key) (t' : Ty) (hwf : t.wf = true)
     obtain ⟨_, rfl⟩ := h; rfl
   | bytelist lim =>
     cases k <;> simp [navigateType] at h
-    obtain ⟨_, rfl⟩ := h; rfl
+    · obtain ⟨_, rfl⟩ := h; rfl
+    · subst h; rfl
   | vector et n =>
     simp [Ty.wf] at hwf
     cases k <;> simp [navigateType] at h
